@@ -1,6 +1,9 @@
 import AdfObdd.Counts
 import AdfObdd.Cubes
 import AdfObdd.CountsDef
+import AdfObdd.CountsMore
+import AdfObdd.PathsDepth
+import AdfObdd.OpsProofs
 /-! # C13 — counts, depth, supports and path cubes of a diagram are exact
 
 Model: `countF` (= `modelcount_naive`: counter-models, models, depth), `pathsF`, `depsF`
@@ -73,5 +76,76 @@ theorem unrepaired_more_models_constant (cm m : Nat) : m ≥ min m cm := Nat.min
 /-- non-vacuity: the fresh store with the variable x0 is well formed and x0 is an inner node -/
 example : (mkNode Store.init 0 0 1).2 = 2 ∧ 2 < (mkNode Store.init 0 0 1).1.nodes.size := by
   simp [mkNode, Store.init]
+
+/-! ## counting clauses, continued: totals, counter-models, paths, depth -/
+
+/-- counter-models and models add up to `2^depth` -/
+theorem counts_total (s : Store) (w : WF s) (t : Nat) (ht : t < s.nodes.size) :
+    (countF s (t+1) t).1 + (countF s (t+1) t).2.1 = 2 ^ (countF s (t+1) t).2.2 :=
+  counts_total_fuel s w.table (t+1) t ht (Nat.lt_succ_self _)
+
+/-- counter-model count: `cmodels(t) · 2^|vs| = #{falsifying assignments to vs} · 2^depth(t)`
+(same hypotheses as `models_exact_ratio`) -/
+theorem cmodels_exact_ratio (s : Store) (w : WF s) (t : Nat) (ht : t < s.nodes.size)
+    (vs : List Nat) (hvs : vs.Pairwise (· < ·)) (hdeps : ∀ x ∈ depsF s (t+1) t, x ∈ vs) (base : Asg) :
+    (countF s (t+1) t).1 * 2 ^ vs.length =
+      sat (fun σ => !eval s t σ) base vs * 2 ^ (countF s (t+1) t).2.2 :=
+  cmodels_ratio s w (t+1) t ht (Nat.lt_succ_self _) vs hvs hdeps base
+
+/-- `pathsList` is the list of root-to-leaf paths of the unfolding (exactly the paths, none
+twice, and every assignment following a path is evaluated to the path's terminal), and the
+path counts are the numbers of listed paths ending in ⊥ resp. ⊤ -/
+theorem paths_exact (s : Store) (w : WF s) (t : Nat) :
+    (∀ p : DPath, p ∈ pathsList s (t+1) t ↔ IsPath s t p.1 p.2) ∧
+    (pathsList s (t+1) t).Nodup ∧
+    (∀ p ∈ pathsList s (t+1) t, ∀ σ, Follows σ p.1 → eval s t σ = p.2) ∧
+    (paths s t).1 = (pathsList s (t+1) t).countP (fun p => !p.2) ∧
+    (paths s t).2 = (pathsList s (t+1) t).countP (fun p => p.2) := by
+  refine ⟨mem_pathsList_iff s w.table t, pathsList_nodup s (t+1) t, ?_, ?_, ?_⟩
+  · intro p hp σ hσ
+    exact path_eval s w.table t p.1 p.2 ((mem_pathsList_iff s w.table t p).mp hp) σ hσ
+  · simp only [paths, pathsF_counts]
+  · simp only [paths, pathsF_counts]
+
+/-- the depth component is the length of a longest root-to-leaf path (0 for the terminals) -/
+theorem depth_exact (s : Store) (w : WF s) (t : Nat) (ht : t < s.nodes.size) :
+    (∀ p ∈ pathsList s (t+1) t, p.1.length ≤ (countF s (t+1) t).2.2) ∧
+    (∃ p ∈ pathsList s (t+1) t, p.1.length = (countF s (t+1) t).2.2) ∧
+    (t < 2 → (countF s (t+1) t).2.2 = 0) :=
+  ⟨depth_upper s w.table (t+1) t (Nat.lt_succ_self _),
+   depth_attained s w.table (t+1) t (Nat.lt_succ_self _) ht,
+   fun h => by
+     have h01 : t = 0 ∨ t = 1 := by omega
+     rcases h01 with h | h <;> subst h <;> simp [countF]⟩
+
+/-- the one-variable store used by the non-vacuity examples -/
+def x0Store : Store := (mkNode Store.init 0 0 1).1
+
+theorem x0Store_WF : WF x0Store :=
+  (mkNode_spec Store.init WF_init 0 0 1 (by simp [Store.init]) (by simp [Store.init])
+    (by simp [VBOT]) (by simp [topVar, Store.init, VBOT]) (by simp [topVar, Store.init, VTOP])).1
+
+theorem x0Store_nodes : x0Store.nodes = #[⟨VBOT, 0, 0⟩, ⟨VTOP, 1, 1⟩, ⟨0, 0, 1⟩] := by
+  simp [x0Store, mkNode, Store.init]
+
+/-- non-vacuity of `counts_total`, `depth_exact`: on the diagram of x0 the counts are (1, 1), depth 1 -/
+example : WF x0Store ∧ 2 < x0Store.nodes.size ∧ countF x0Store 3 2 = (1, 1, 1) := by
+  refine ⟨x0Store_WF, by simp [x0Store_nodes], ?_⟩
+  simp [countF, x0Store_nodes]
+
+/-- non-vacuity of `paths_exact`: the two paths of x0 -/
+example : pathsList x0Store 3 2 = [([(0, false)], false), ([(0, true)], true)] ∧ paths x0Store 2 = (1, 1) := by
+  simp [pathsList, paths, pathsF, x0Store_nodes]
+
+/-- non-vacuity of `models_exact_ratio` / `cmodels_exact_ratio`: the hypotheses hold for x0 over the variables [0, 1] -/
+example : ([0, 1] : List Nat).Pairwise (· < ·) ∧ (∀ x ∈ depsF x0Store 3 2, x ∈ [0, 1]) ∧
+    (countF x0Store 3 2).1 * 2 ^ 2 = sat (fun σ => !eval x0Store 2 σ) (fun _ => false) [0, 1] * 2 ^ 1 := by
+  refine ⟨by simp, ?_, ?_⟩
+  · simp [depsF, x0Store_nodes]
+  · have := cmodels_exact_ratio x0Store x0Store_WF 2 (by simp [x0Store_nodes]) [0, 1] (by simp)
+      (by simp [depsF, x0Store_nodes]) (fun _ => false)
+    have hc : countF x0Store 3 2 = (1, 1, 1) := by simp [countF, x0Store_nodes]
+    rw [hc] at this ⊢
+    simpa using this
 
 end C13
